@@ -215,7 +215,9 @@ class Renderer:
                     "vla_static": None, "vla_init": "int zv[li] = { 1 };", "vla2_init": "int zv[2][li] = { 0 };", "vla_ok": "int zv[li];",
                     "scalar_double_brace": "int zv = { { 1 } };", "init_missing_comma": "int zv[2] = { 1 2 };",
                     "nullptr_assign": "typeof(nullptr) zn = 1;", "const_fold_overflow_s": "static int zv = (int)1e30;",
-                    "const_fold_overflow_u": "static unsigned zv = (unsigned)1e30;"}[f["kind"]]
+                    "const_fold_overflow_u": "static unsigned zv = (unsigned)1e30;",
+                    "static_init_addr_local": "static int *zv = &li;", "static_init_addr_compound": "static int *zv = &(int){ 1 };",
+                    "static_init_addr_index": "static int *zv = &ga[gi];", "static_init_addr_ok": "static int *zv = &ga[1];"}[f["kind"]]
         if fm == "dir":
             return self.directive(f)
         raise KeyError(fm)
